@@ -15,6 +15,7 @@ import (
 	"go/token"
 	"go/types"
 	"os"
+	"os/exec"
 	"path/filepath"
 	"sort"
 	"strconv"
@@ -123,6 +124,37 @@ func main() {
 		overlay[filepath.Join(*repo, rel)] = path
 		return nil
 	})
+	// the logging package of ship-go serialises every Log() call through one package-level
+	// mutex. It is no part of the stack's synchronisation, but its happens-before edges would
+	// hide most data races from the race detector (and its calls are no scheduling points):
+	// replace Log() by a version without the mutex (SetLogging is never called by the harness).
+	lcmd := exec.Command("go", "list", "-f", "{{.Dir}}", "github.com/enbility/ship-go/logging")
+	lcmd.Dir = *repo
+	lcmd.Env = cfg.Env
+	if dir, err := lcmd.Output(); err == nil {
+		d := strings.TrimSpace(string(dir))
+		files, _ := filepath.Glob(filepath.Join(d, "*.go"))
+		for _, f := range files {
+			if strings.HasSuffix(f, "_test.go") {
+				continue
+			}
+			b, err := os.ReadFile(f)
+			if err != nil || !bytes.Contains(b, []byte("func Log() LoggingInterface {")) {
+				continue
+			}
+			src := string(b)
+			i := strings.Index(src, "func Log() LoggingInterface {")
+			j := i + strings.Index(src[i:], "\n}\n")
+			src = src[:i] + "func Log() LoggingInterface {\n\treturn log\n}\n" + src[j+3:]
+			dst := filepath.Join(*out, "src", "shiplogging", filepath.Base(f))
+			os.MkdirAll(filepath.Dir(dst), 0o755)
+			os.WriteFile(dst, []byte(src), 0o644)
+			overlay[f] = dst
+			st.Files++
+		}
+	} else {
+		fmt.Fprintf(os.Stderr, "instrument: cannot locate ship-go/logging: %v\n", err)
+	}
 	// generated registry of model types
 	if modelPkg != nil {
 		gen := genRegistry(modelPkg)
